@@ -7,7 +7,7 @@
    the tables mention no id of I; `teq t t'` = every key looks up the same in t and t'); `inline` / `inlT` = recursive inlining (tokens / tree); `outputs c A its` = the
    output(s) of the instance(s) with id c; `carrying c doc` = number of elements of doc with attribute
    data-djc-id-c; `top_elems out` = number of top-level elements of out. *)
-From DJC Require Import Lib.Base PostRender.Model PostRender.Proofs PostRender.Placeholder.
+From DJC Require Import Lib.Base PostRender.Model PostRender.Proofs PostRender.Placeholder PostRender.Ident.
 From DJC Require Gen.C14.
 Import Coq.Strings.String.StringSyntax.
 Local Delimit Scope string_scope with string.
@@ -96,6 +96,54 @@ Theorem placeholder_found_with_its_id : forall id attrs tail,
 Proof. exact placeholder_roundtrip_lemma. Qed.
 Print Assumptions placeholder_found_with_its_id.
 
+(* ---------- the id that Component.id reports (PostRender/Ident.v) ----------
+   `page_events early obj its` = the order in which the implementation allocates render ids (gen_id in _render_impl),
+   pushes / pops the metadata stack of the Component object `obj c` that renders instance c, and lets user code read
+   self.id (end of get_context_data, on_render_before, end of the template, on_render_after) - the order of the
+   deferred-render queue; `early c`: c is rendered from inside get_context_data of the enclosing instance; objects may
+   be shared (self.render()).  `exec rho T S` runs the stacks (deque append / pop / [-1]) and returns what every read of
+   Component.id returned.  `rid sup T c` = the supply's value at the position of c's allocation = the render_id the
+   marker attribute of c is built from.  `rename rho its` = the instance tree carrying those ids. *)
+
+(* (a) For EVERY instance tree, every assignment of instances to Component objects (fresh objects, the same object
+   re-entered from its own hooks to any depth, even objects shared arbitrarily) and every set of renders made from
+   inside get_context_data: no read fails, all stacks are empty afterwards, EVERY read of Component.id - in whatever
+   hook, before or after nested renders on the same object returned - yields the id allocated for that render, every
+   instance reads it at least once, and the rendered page is the document in which exactly that id marks the
+   top-level elements of the instance's output and no other element. *)
+Theorem component_id_is_marker_id : forall early obj sup its,
+  (forall i j, sup i = sup j -> i = j) -> NoDup (ids its) ->
+  let T := page_events early obj its in
+  let rho := rid sup T in
+  exists S R,
+    exec rho T [] = Some (S, R) /\ (forall o, aget [] o S = []) /\
+    (forall h c v, In (h, c, v) R -> v = rho c) /\
+    (forall c, In c (ids its) -> In (HGcd, c, rho c) R) /\
+    page_render ([], []) (rename rho its) = Done (inline [] (rename rho its), ([], [])) /\
+    (forall c, In c (ids its) ->
+       exists B out, outputs (rho c) [] (rename rho its) = [out] /\ Forall (root_ok (B ++ [rho c])) out /\
+                     carrying (rho c) (inlT [] (rename rho its)) = top_elems out).
+Proof. exact component_id_lemma. Qed.
+Print Assumptions component_id_is_marker_id.
+
+(* (b) Distinct instances get distinct render ids - for every tree and every order of allocation - PROVIDED the id
+   supply never repeats (hypothesis `sup` injective: the distinct-ids assumption about gen_id, shared with C07; its
+   checked premise is Example id_supply_anchor). *)
+Theorem allocated_ids_distinct : forall early obj sup its,
+  (forall i j, sup i = sup j -> i = j) -> NoDup (ids its) ->
+  let rho := rid sup (page_events early obj its) in
+  (forall c c', In c (ids its) -> In c' (ids its) -> rho c = rho c' -> c = c') /\ NoDup (ids (rename rho its)).
+Proof. exact rid_distinct_lemma. Qed.
+Print Assumptions allocated_ids_distinct.
+
+(* (c) shared roots over the id-carrying instances: a chain of components-as-roots puts the allocated ids of the
+   whole chain (after the inherited ones) on the elements of the innermost template. *)
+Theorem shared_roots_carry_allocated_ids : forall f A c cs body t kids,
+  In (IElem t kids) body ->
+  In (HElem t (A ++ map f (c :: cs)) (inlT [] (rename f kids))) (inlT_item A (rename_item f (chain_item c cs body))).
+Proof. exact shared_roots_ids_lemma. Qed.
+Print Assumptions shared_roots_carry_allocated_ids.
+
 (* ---------- non-vacuity ---------- *)
 Example ex_placeholder :
   tagged_placeholder (s2n "a1B2c3"%string) [s2n "Zz0Zz0"%string]
@@ -163,3 +211,24 @@ Proof. vm_compute. reflexivity. Qed.
 Example ex_fuel_tight :
   post_render 3 ([], []) 1%N [IElem 1%N [IComp 2%N [IElem 2%N []]]] = OutOfFuel.
 Proof. vm_compute. reflexivity. Qed.
+
+(* a tree component: instance 1 renders instance 2 by self.render() inside its own get_context_data (same object 1, early),
+   then the deferred child 3; supply = 10, 11, 12, ...  Allocation order 1, 2, 3; while 2 renders, object 1's stack
+   holds [10; 11]; every read returns the own id, also the read of instance 1 AFTER the nested render returned *)
+Example ex_component_id :
+  let early := fun c => N.eqb c 2%N in
+  let obj := fun c => if N.eqb c 2%N then 1%N else c in
+  let its := [IComp 1%N [IElem 1%N [IRoot 2%N [IElem 2%N []]]; IComp 3%N [IElem 3%N []]]] in
+  let T := page_events early obj its in
+  let rho := rid (fun k => N.of_nat (10 + k)) T in
+  allocs T = [1%N; 2%N; 3%N]
+  /\ exec rho T [] = Some ([(1%N, []); (3%N, [])],
+       [(HGcd, 2%N, 11%N); (HBefore, 2%N, 11%N); (HTemplate, 2%N, 11%N); (HAfter, 2%N, 11%N); (HGcd, 1%N, 10%N);
+        (HBefore, 1%N, 10%N); (HGcd, 3%N, 12%N); (HTemplate, 1%N, 10%N); (HBefore, 3%N, 12%N); (HTemplate, 3%N, 12%N);
+        (HAfter, 3%N, 12%N); (HAfter, 1%N, 10%N)])
+  /\ inline [] (rename rho its) = [Open 1%N [10%N]; Open 2%N [11%N]; Close 2%N; Close 1%N; Open 3%N [10%N; 12%N]; Close 3%N].
+Proof. vm_compute. repeat split. Qed.
+(* the stack discipline matters: leaving with popleft() instead of pop() (seeded change C14b) is a different `exec` -
+   with two entries on one stack the outer render would read the inner render's id afterwards *)
+Example ex_stack_is_lifo : last (removelast ([10%N; 11%N])) 0%N = 10%N /\ last (tl [10%N; 11%N]) 0%N = 11%N.
+Proof. split; reflexivity. Qed.
